@@ -83,7 +83,8 @@ Reset ==
     /\ IsEvent("reset")
     /\ cur' = [kind |-> Line.kind, cls |-> Line.cls, task |-> Line.task,
                seq |-> Line.seq, eff |-> StrSet(Line.eff),
-               later |-> Line.later, id |-> Line.case]
+               later |-> Line.later, laterR |-> Line.later_restart,
+               id |-> Line.case]
     /\ K0' = KeySet(Line.pre.dk)
     /\ cut' = Idle
     \* the state before the operation satisfies the clauses (else the case
@@ -114,6 +115,16 @@ FaultStep ==
            Know == IF down THEN RestartKeys(Kcut) ELSE Kcut
            op == [task |-> cur.task, seq |-> seq, cls |-> cur.cls,
                   eff |-> cur.eff]
+           \* does another publication request reach the server?
+           later == IF down THEN cur.laterR ELSE cur.later
+           lostTask ==
+               \E x \in K0 :
+                   /\ x[1] = "tasks" /\ x[2] = "pending"
+                   /\ x[3] # "update_rrdp_if_needed"
+                   /\ x \notin Know
+                   /\ <<"tasks", "running", x[3]>> \notin Know
+                   /\ ~\E i \in 1..Len(Xs) :
+                         Xs[i].t = "FIN" /\ Xs[i].e = x[3]
        IN
        \* --- conformance: this is a cut of the recorded sequence
        /\ k \in 1..Len(seq)
@@ -162,32 +173,33 @@ FaultStep ==
              THEN {"UnackedAllOrNothing"} ELSE {})
             \cup (IF NoCurrent(Xs) \/ NotifAhead(Xs)
                   THEN {"RPCleanAfterRestart"} ELSE {})
+            \cup (IF NoCurrent(Xs) /\ ~later
+                  THEN {"RPCleanFinal"} ELSE {})
             \cup (IF \/ (RrdpStale(op, Xs) \/ RsyncStale(op, Xs)
-                           \/ NoCurrent(Xs)) /\ ~cur.later
-                     \/ OldLeft(Xs) /\ cur.later
-                     \/ /\ cur.cls = "sync_repo" /\ WalDone(Xs) /\ ~cur.later
+                           \/ NoCurrent(Xs)) /\ ~later
+                     \/ /\ cur.cls = "sync_repo" /\ WalDone(Xs) /\ ~later
                         /\ <<"tasks", "pending", "update_rrdp_if_needed">>
                               \notin Know
                         /\ <<"tasks", "running", "update_rrdp_if_needed">>
                               \notin Know
-                     \* a queue entry deleted for replacement and not stored
-                     \* again while the process lives on: the recurring
-                     \* synchronisation with the parent stops
-                     \/ /\ ~down
-                        /\ \E x \in K0 :
-                             /\ x[1] = "tasks" /\ x[2] = "pending"
-                             /\ x[3] # "update_rrdp_if_needed"
-                             /\ x \notin Know
-                             /\ <<"tasks", "running", x[3]>> \notin Know
-                             /\ ~\E i \in 1..Len(Xs) :
-                                   Xs[i].t = "FIN" /\ Xs[i].e = x[3]
                   THEN {"TwinEquivalence"} ELSE {})
-       \* A follow-up task queued by the pre-save listener carries the
-       \* version the failed command would have produced: it finds the CA
-       \* "premature" and re-schedules itself until another command
-       \* catches up - whether one does is the rest of the history's
-       \* business.
        /\ maybe' =
+            \* A stale old/ directory makes the next rename(current, old)
+            \* fail (ENOTEMPTY) - if there is a next one.
+            (IF OldLeft(Xs) /\ later THEN {"TwinEquivalence"} ELSE {})
+            \cup
+            \* A queue entry deleted for replacement and not stored again
+            \* while the process lives on and the caller is not told: the
+            \* recurring synchronisation stops until the next restart.
+            (IF ~down /\ lostTask /\ (cur.task \/ Line.acked)
+             THEN {"TwinEquivalence"} ELSE {})
+            \cup
+            \* A new-notification.xml left behind is overwritten by the next
+            \* update without truncation (file.rs create_file): if the next
+            \* notification is shorter, the renamed file ends in garbage.
+            (IF Has(Xs, "NEWNOTIF") /\ ~Has(Xs, "RENAME") /\ later
+             THEN {"TwinEquivalence", "RPCleanFinal"} ELSE {})
+            \cup
             \* Re-submission applies the events of the command a second time
             \* to an object set that already contains their effect; whether
             \* that converges depends on the events (it does for a ROA, it
@@ -200,6 +212,11 @@ FaultStep ==
             (IF \E i \in 1..Len(seq) : seq[i].t \in {"RMSCOPE", "OBJSDEL"}
              THEN {"TwinEquivalence"} ELSE {})
             \cup
+            \* A follow-up task queued by the pre-save listener carries the
+            \* version the failed command would have produced: it finds the
+            \* CA "premature" and re-schedules itself until another command
+            \* catches up - whether one does is the rest of the history's
+            \* business.
             IF /\ ~down
                /\ \E c \in {Xs[i].e : i \in Idx(Xs, "OBJS")} :
                      /\ Count(Xs, "OBJS", c) > Count(Xs, "CMD", c)
@@ -224,10 +241,13 @@ FinalStep ==
     /\ IsEvent("Final") /\ cut # Idle
     /\ LET o == Line.obs
            v == verdict
+                \* API views and repository content
                 \cup (IF /\ Line.equal /\ Line.settledok
-                         /\ o.rrdpeq /\ o.rsynceq /\ ObsRPClean(o)
+                         /\ o.rrdpeq /\ o.rsynceq
                          /\ o.objsbad = <<>> /\ ObsAllLoad(o)
                       THEN {} ELSE {"TwinEquivalence"})
+                \* what is served in the end parses and validates
+                \cup (IF ObsRPClean(o) THEN {} ELSE {"RPCleanFinal"})
        IN /\ verdict' = v
           /\ PrintT(<<"CASE", ToJson(cur.id), ToJson(v), ToJson(predicted),
                       ToJson(maybe)>>)
